@@ -11,6 +11,7 @@ import json
 import os
 from vt import core
 from vt.main import decide
+from translate import edpos_tr
 
 EXT = ".c34"
 UNI = ["é", "ж", "λ", "\U0001d4b3"]   # letters outside ASCII / BMP: offsets are code points
@@ -468,10 +469,10 @@ def impl_canon(case, o):
         for nm, s, e, df, ds, de in m["refs"]:
             if df is None:
                 df = f if case.get("from_str") else "<none>"
-            es.append("%s,%d,%d,%s,%s,%s" % (core.canon_text(nm), s, e, order.index(df) if df in order else "?" + str(df), ds, de))
+            es.append("%s,%s,%s,%s,%s,%s" % (core.canon_text(str(nm)), s, e, order.index(df) if df in order else "?" + str(df), ds, de))
         refs_s.append(";".join(es))
         ids = {(x["cls"], x["s"], x["e"]): x["id"] for x in objects_of(case["trees"][f])}
-        dict_s.append(";".join("%d-%d:%s" % (s, e, ids.get((cls, vs, ve), "?%s@%s-%s" % (cls, vs, ve))) for s, e, cls, vs, ve in m["dict"]))
+        dict_s.append(";".join("%s-%s:%s" % (s, e, ids.get((cls, vs, ve), "?%s@%s-%s" % (cls, vs, ve))) for s, e, cls, vs, ve in m["dict"]))
     return "ok|" + "/".join(refs_s) + "#" + "/".join(dict_s)
 
 
@@ -502,6 +503,9 @@ def oracle(case, o):
         exp = case["refs"][f]
         got = m["refs"]
         starts = [g[1] for g in got]
+        if any(not isinstance(p, int) for p in starts):
+            bad.append("%s: a listed reference has no start position: %r" % (f, starts))
+            continue
         if starts != sorted(starts):
             bad.append("%s: _pos_crossref_list is not ordered by ref_pos_start: %r" % (f, starts))
         if sorted(starts) != sorted(x["s"] for x in exp):
@@ -512,7 +516,7 @@ def oracle(case, o):
             if x is None:
                 continue
             if e != x["e"] or text[s:e] != x["text"]:
-                bad.append("%s: reference %r at %d: listed end %d gives %r" % (f, x["text"], s, e, text[s:e]))
+                bad.append("%s: reference %r at %d: listed end %s gives %r" % (f, x["text"], s, e, text[s:e] if isinstance(e, int) else None))
             if nm != x["name"]:
                 bad.append("%s: reference at %d listed under name %r, reference is %r" % (f, s, nm, x["name"]))
             if df is None and case.get("from_str"):
@@ -618,7 +622,7 @@ def gen_cases(chk, n):
 
 
 def run(chk):
-    chk.prove([])
+    chk.prove([edpos_tr.translate])
     n = 1500 if chk.thorough else 200
     cases = load_corpus() + gen_cases(chk, n)
     impl = run_impl(cases)
@@ -650,7 +654,8 @@ def run(chk):
                        "(b) FQNImportURI + RelativeName (real postponement); a malformed stream gives unknown/unresolvable loads; "
                        "non-trivial = a qualified or postponed reference, a multi-file case with references, or objects sharing a span; "
                        "distinct by (mode, file texts, provider table)")
-    chk.assumptions += ["object and reference spans of the generated documents are computed by the generator while printing "
+    chk.assumptions += ["translator edpos_tr.py (ast match of the collection code in textx/model.py)",
+                        "object and reference spans of the generated documents are computed by the generator while printing "
                         "(independent of the parser); the model takes them as the parse tree's spans (C06 covers _tx_position*)",
                         "Arpeggio parse trees are well-formed (children inside parents, in document order): wfb is evaluated on every case",
                         "scope providers are deterministic functions of the call history; builtins fallback is not modelled"]
